@@ -328,7 +328,13 @@ from .common import (BOOLEAN_T, SIGNED_T, UNSIGNED_T, BYTE_T, UTF8_T, FLOAT_T, C
 
 # the value-range contracts are used at call sites here: their result is a ValueRange record
 for _q in (SIGNED_T, UNSIGNED_T, FLOAT_T):
-    REG.contracts["pydsdl." + _q.replace("pydsdl.", "") + ".inclusive_value_range"].returns = c12.ValueRangeK
+    _rc = REG.contracts["pydsdl." + _q.replace("pydsdl.", "") + ".inclusive_value_range"]
+    _rc.returns = c12.ValueRangeK
+    # ... and their bodies are re-verified in the runs of C06 / C07 (cheap: one instance per width): saturation and the
+    # "decoded value lies in the range of its type" clause stand on them
+    for _p in ("C06", "C07"):
+        if _p not in _rc.props:
+            _rc.props.append(_p)
 
 
 class ConcreteType(Kind):
